@@ -161,7 +161,7 @@ Section Once.
       generalize dependent (jan1 y0). generalize dependent (tod_of now). generalize dependent (day_of now).
       intros. unfold midnight, DAY in *. lia. }
     unfold once_next. replace (is_monthday e) with true by (unfold is_monthday; rewrite Ed; reflexivity).
-    rewrite Hmd. cbn [negb andb first_year].
+    rewrite Hmd. cbn [negb andb]. unfold year_shifts. cbn [first_year].
     rewrite !(denote_gen_ok scale sun e _ 0 now su OK), !IV. cbn [rbind].
     replace (y0 + -1) with (y0 - 1) by lia. replace (y0 + 0) with y0 by lia.
     pose proof (STEP (y0 - 2)) as S0. replace (y0 - 2 + 1) with (y0 - 1) in S0 by lia.
